@@ -149,7 +149,9 @@ def schema_open(f, files, extra_decls=None):
     s += ' elementFormDefault="qualified"'
     for k, p in sorted(f.prefixes.items(), key=lambda kv: kv[1]):
         uri = files[k].uri
-        if uri is None or p == "":
+        if uri is None:
+            continue
+        if p == "":
             continue
         if f.nested_xmlns and k != f.idx:
             continue
